@@ -46,6 +46,8 @@ pub fn run(thorough: bool) -> Vec<Part> {
         let mut cfg = Cfg::base("C13", "expect-alphabet", alphabet(thorough), 40);
         cfg.allow_defer = true;
         cfg.empty_reads = false;
+        // a write may fail (the queued output is lost); later Expect requests still get their 100
+        cfg.write_faults = true;
         let limits = Limits { max_states: 12_000_000, max_secs: if thorough { 1500.0 } else { 120.0 }, ..Default::default() };
         let st = bfs(&cfg, &limits, workers());
         record(&mut part, "expect-alphabet", &st);
